@@ -23,7 +23,8 @@ class Facts:
                      ('normalise_option_filter', inline.normalise_option_filter, 'renamed'),
                      ('normalise_internal_iteration', inline.normalise_internal_iteration, 'renamed'),
                      ('inline_closure_calls', lambda x: inline.inline_closure_calls(x) if self.inlined else [], 'renamed'),
-                     ('dissolve_new_structs', lambda x: inline.dissolve_new_structs(x, kadts), 'renamed')]
+                     ('dissolve_new_structs', lambda x: inline.dissolve_new_structs(x, kadts), 'renamed'),
+                     ('split_tuple_locals', lambda x: inline.split_tuple_locals(x, known), 'renamed')]
             skip = set()
             while True:
                 self.renamed, self.inlined = [], []
